@@ -159,19 +159,47 @@ class Gen:
         for i in range(len(fields) - 1, -1, -1):
             f = fields[i]
             if f["tag"] is None and f["ty"]["k"] == "opt" and v[f["name"]] is None:
-                following = b"".join(R.field_bytes(self.layout, g, g["ty"], v[g["name"]]) for g in fields[i + 1:])
+                try:
+                    following = b"".join(R.field_bytes(self.layout, g, g["ty"], v[g["name"]]) for g in fields[i + 1:])
+                except R.NotRepresentable:
+                    continue          # the whole value is not representable; the caller's `fits` drops it
                 if not self.absent_is_canonical(f, following):
                     v[f["name"]] = self.value(f, f["ty"]["t"])
         return v
 
-    @staticmethod
-    def absent_is_canonical(f, following):
+    def absent_is_canonical(self, f, following):
         """does the decoder of positional optional field f fail on `following`?"""
         style, enc, inner = f["length"], f["encoding"], f["ty"]["t"]
         if style.startswith("fixed:"):
             return len(following) < int(style[6:])
         if style == "empty" and inner["k"] == "int" and enc in ("dflt", "be"):
             return len(following) < inner["w"]
+        if style == "tlv":
+            # the BER length parser itself fails: nothing left, a length byte 80 / 83..FF, or more announced than there is
+            if len(following) == 0 or following[0] == 0x80 or following[0] >= 0x83:
+                return True
+            if following[0] <= 0x7f:
+                n, h = following[0], 1
+            elif following[0] == 0x81:
+                if len(following) < 2:
+                    return True
+                n, h = following[1], 2
+            else:
+                if len(following) < 3:
+                    return True
+                n, h = following[1] * 256 + following[2], 3
+            return n > len(following) - h
+        if style.startswith("llv:"):
+            k = int(style[4:])
+            if len(following) < k:
+                return True
+            n = 0
+            for d in following[:k]:
+                n = n * 10 + (d & 0x0f)
+            return n > len(following) - k
+        if style == "empty" and inner["k"] == "struct" and len(following) == 0 and any(
+                g["tag"] is not None and g["ty"]["k"] not in ("opt", "vec", "bytes") for g in self.layout["by_name"][inner["name"]]["fields"]):
+            return True      # the nested decoder reports the missing mandatory field
         return False     # conservative: treat as "would be read as present"
 
 
